@@ -815,13 +815,18 @@ def w11(rep):
     f = common.extract("emit.c", trees=["emitGetFileIdName"], cfg=["emitGetFileIdName"])
     fn = f.func("emitGetFileIdName")
     cfg = common.CFG(fn)
-    env = {"emitFileIdName": 1, "emitFileIdPrefix": 1}
+    scenario = {}
+
+    def lookup(n, env_):
+        if n["k"] == "MemberExpr" and n["n"] == "idName":
+            return scenario.get("idName")
+        return None
 
     def edge_ok(b, s_):
         ce = cfg.cond_edges(b)
         if ce is None:
             return True
-        v = peval(ce[0], env)
+        v = peval(ce[0], scenario["env"], lookup)
         if v is None:
             return True
         return s_ == (ce[1] if v else ce[2])
@@ -833,10 +838,18 @@ def w11(rep):
         raise AnalysisBroken("emitGetFileIdName: the application of the -Wprefix text was not found")
     if not any(y["k"] == "DeclRefExpr" and y["n"] == "emitFileIdName" for y in walk(fn["body"])):
         raise AnalysisBroken("emitGetFileIdName no longer looks at emitFileIdName")
-    esc = cfg.path_avoiding(cfg.entry, prefixes, lambda n: False, edge_ok=edge_ok)
+    esc = None
+    per_file = any(y["k"] == "MemberExpr" and y["n"] == "idName" for y in walk(fn["body"]))
+    for sc in ([{"env": {"emitFileIdName": 1, "emitFileIdPrefix": 1}, "idName": 0},
+                {"env": {"emitFileIdName": 0, "emitFileIdPrefix": 1}, "idName": 1}] if per_file else
+               [{"env": {"emitFileIdName": 1, "emitFileIdPrefix": 1}, "idName": None}]):
+        scenario.clear()
+        scenario.update(sc)
+        esc = esc or cfg.path_avoiding(cfg.entry, prefixes, lambda n: False, edge_ok=edge_ok)
     # conditional expressions are not split into CFG edges by value: also evaluate `x ? a : b` selections of the set id
     tern = [y for y in walk(fn["body"]) if y["k"] == "ConditionalOperator" and
-            any(z["k"] == "DeclRefExpr" and z["n"] == "emitFileIdName" for z in walk(y["c"][0]))]
+            any(z["k"] == "DeclRefExpr" and z["n"] == "emitFileIdName" or z["k"] == "MemberExpr" and z["n"] == "idName"
+                for z in walk(y["c"][0]))]
     where = "emit.c:%d (emitGetFileIdName)" % fn["l"]
     if esc is None and not tern:
         rep.ok("W11", "unit-id:set-id-returned-as-is")
